@@ -26,48 +26,36 @@ def check_python(report):
     m = pm()
     fi = m.func("gapic.schema.api._ProtoBuilder._maybe_get_lro")
     fn, p = fi.node, fi.module.path
-    MP = fn.args.args[2].arg if len(fn.args.args) >= 3 else "meth_pb"
-    SA = fn.args.args[1].arg if len(fn.args.args) >= 3 else "service_address"
-    gate = [n for n in ast.walk(fn) if isinstance(n, ast.If) and pmatch("_MP_.output_type.endswith('google.longrunning.Operation')", n.test, {"_MP_": MP}) is not None]
+    from ..pymodel import nreturn, decision_leaves
+    r1.need(len(fn.args.args) == 3, "_maybe_get_lro(self, service_address, meth_pb)")
+    SA, MP = fn.args.args[1].arg, fn.args.args[2].arg
+    e = nreturn(m, fi, keep={"OperationInfo", "resolve"})
+    r1.need(e is not None, "_maybe_get_lro", "the function does not reduce to a decision table; the rule cannot judge it")
+    leaves = decision_leaves(e)
+    GATE = f"{MP}.output_type.endswith('google.longrunning.Operation')"
+    EXT = f"{MP}.options.HasExtension(operations_pb2.operation_info)"
+    OP = f"{MP}.options.Extensions[operations_pb2.operation_info]"
+    built = [(c, v) for c, v in leaves if isinstance(v, ast.Call) and ast.unparse(v.func).split(".")[-1] == "OperationInfo"]
+    raised = [(c, v) for c, v in leaves if isinstance(v, ast.Call) and ast.unparse(v.func) == "__raise__"]
+    others = [(c, v) for c, v in leaves if (c, v) not in built and (c, v) not in raised]
     r1.instance("output type gate")
-    r1.check(len(gate) == 1, p, fn.lineno, "if meth_pb.output_type.endswith('google.longrunning.Operation')",
-             "only methods returning google.longrunning.Operation are LROs")
-    ext = [n for n in ast.walk(fn) if isinstance(n, ast.If) and pmatch("not _MP_.options.HasExtension(operations_pb2.operation_info)", n.test, {"_MP_": MP}) is not None
-           and any(isinstance(x, ast.Return) and (x.value is None or ast.unparse(x.value) == "None") for x in n.body)]
+    r1.check(len(built) == 1 and (GATE, True) in built[0][0] and all((GATE, False) not in c or ast.unparse(v) == "None" for c, v in leaves), p, fn.lineno,
+             "output_type.endswith('google.longrunning.Operation')", "only methods returning google.longrunning.Operation are LROs")
     r1.instance("annotation gate")
-    r1.check(len(ext) == 1, p, fn.lineno, "if not HasExtension(operation_info): return None",
-             "an Operation-returning method without operation_info is not an LRO (raw Operation is returned)")
-    ops = [n for n in ast.walk(fn) if isinstance(n, ast.Assign) and pmatch("_MP_.options.Extensions[operations_pb2.operation_info]", n.value, {"_MP_": MP}) is not None]
-    r1.need(len(ops) == 1 and isinstance(ops[0].targets[0], ast.Name), "op = meth_pb.options.Extensions[operation_info]")
-    OP = ops[0].targets[0].id
-    cfg = CFG(fn.body)
-    chk = [n for n in ast.walk(fn) if isinstance(n, ast.If) and any(isinstance(x, ast.Raise) for x in n.body)]
+    r1.check(len(built) == 1 and (EXT, True) in built[0][0] and all(ast.unparse(v) == "None" for c, v in others), p, fn.lineno,
+             "HasExtension(operation_info)", "an Operation-returning method without operation_info is not an LRO (raw Operation is returned)")
     r1.instance("missing type names rejected")
-    okc = [c for c in chk if pmatch("not _OP_.response_type or not _OP_.metadata_type", c.test, {"_OP_": OP}) is not None
-           or pmatch("not _OP_.metadata_type or not _OP_.response_type", c.test, {"_OP_": OP}) is not None]
-    r1.check(len(okc) == 1, p, fn.lineno, "if not op.response_type or not op.metadata_type: raise TypeError",
-             "an LRO lacking either type name must be rejected at generation time")
-    ctor = [c for c in calls(fn) if ast.unparse(c.func) == "wrappers.OperationInfo"]
-    r1.need(len(ctor) == 1, "wrappers.OperationInfo(...)")
-    if okc:
-        rz = [x for x in okc[0].body if isinstance(x, ast.Raise)][0]
-        r1.check(rz.exc is not None and ast.unparse(rz.exc).startswith("TypeError("), p, rz.lineno, ast.unparse(rz.exc)[:50] if rz.exc else "", "must raise TypeError")
-        r1.check(cfg.dominates(okc[0], cfg.node_of(ctor[0])), p, okc[0].lineno, "check dominates OperationInfo construction",
-                 "the rejection must come before the OperationInfo is built")
-    k = {x.arg: x.value for x in ctor[0].keywords}
+    want = {(GATE, True), (EXT, True), (f"{OP}.response_type", True), (f"{OP}.metadata_type", True)}
+    nand = (f"OR(not {OP}.metadata_type; not {OP}.response_type)", True)
+    r1.check(len(built) == 1 and set(built[0][0]) == want, p, fn.lineno, "conditions under which OperationInfo is built",
+             "an OperationInfo is built exactly when the method returns an Operation, carries operation_info and BOTH type names are set")
+    r1.check(len(raised) == 1 and set(raised[0][0]) == {(GATE, True), (EXT, True), nand} and ast.unparse(raised[0][1].args[0]).startswith("TypeError("), p, fn.lineno,
+             "missing type name -> TypeError", "an LRO lacking either type name must be rejected at generation time with TypeError")
     r1.instance("type resolution")
-    for field, src in (("response_type", "response_type"), ("metadata_type", "metadata_type")):
-        v = k.get(field)
-        ok = False
-        if v is not None:
-            b = pmatch("self.api_messages[_K_]", v)
-            if b is not None:
-                defs = [n for n in ast.walk(fn) if isinstance(n, ast.Assign) and isinstance(n.targets[0], ast.Name) and n.targets[0].id == b["_K_"]]
-                ok = len(defs) == 1 and pmatch(f"_SA_.resolve(_OP_.{src})", defs[0].value, {"_SA_": SA, "_OP_": OP}) is not None
-            else:
-                ok = pmatch(f"self.api_messages[_SA_.resolve(_OP_.{src})]", v, {"_SA_": SA, "_OP_": OP}) is not None
-        r1.check(ok, p, ctor[0].lineno, f"{field}={ast.unparse(v) if v is not None else None}",
-                 f"OperationInfo.{field} must be api_messages[service_address.resolve(op.{src})] (relative names resolve against the method's package)")
+    k = {x.arg: ast.unparse(x.value) for x in built[0][1].keywords} if built else {}
+    for field in ("response_type", "metadata_type"):
+        r1.check(k.get(field) == f"self.api_messages[{SA}.resolve({OP}.{field})]", p, fn.lineno, f"{field}={k.get(field)}",
+                 f"OperationInfo.{field} must be api_messages[service_address.resolve(op.{field})] (relative names resolve against the method's package)")
     # reachability of the raise from API.build
     cg = CallGraph(m)
     pred = cg.reachable(["gapic.schema.api.API.build"])
